@@ -20,6 +20,10 @@ func init() {
 			{"timesafeguard.timeInSync", full},
 			{"timesafeguard.synchronizedWithNetwork", full},
 			{"timesafeguard.init", full},
+			{"timesafeguard.collectTime", full},
+			// log.Fatalf when the node to join cannot be reached is the intended refusal: not a panic obligation here
+			{"timesafeguard.SynchronizedWithNetwork", vc.UnitOpts{Post: true, Frame: true}},
+			{"timesafeguard.SynchronizedWithMasterAndNetwork", vc.UnitOpts{Post: true, Frame: true}},
 		},
 		Assumptions: []string{
 			"time.Time is abstracted to one unbounded integer of wall-clock nanoseconds (zero value = 0); monotonic readings and locations are not modelled",
@@ -27,7 +31,7 @@ func init() {
 			"machine arithmetic on time.Duration is exact 64-bit two's complement (arith exact); Time.Sub saturates",
 		},
 		NotCovered: []string{
-			"collectTime/getServerTime (goroutines, HTTP): that an unanswered peer leaves a zero Result is assumed from make([]timeResult, n)",
+			"the bodies of the measuring goroutines in collectTime and getServerTime (HTTP) are not followed: that an unanswered peer leaves a zero Result is assumed from make([]timeResult, n)",
 			"the call order in main() (time check before raft.NewRaft / before joining) is not under contract",
 		},
 		Replay: replayC19,
